@@ -1131,4 +1131,28 @@ theorem UI.checkedNeg_eq_isZero {w n : Nat} {a : List Nat} (hw : 1 ≤ w) (hn : 
     have hu : U w a ≠ 0 := fun h => hz ((isZero_iff (w := w) a).2 h)
     exact hc.1.2 (by unfold repU; omega)
 
+
+/-! ### side of a signed add / sub overflow -/
+namespace II
+/-- when `self + rhs` is not representable it lies below MIN iff `self` is negative -/
+theorem add_overflow_side {w n : Nat} {a b : List Nat} (hw : 1 ≤ w) (hn : 1 ≤ n)
+    (ha : WF w n a) (hb : WF w n b) (hov : ¬ repS (M w n) (S w a + S w b)) :
+    (isNegative w a = true → 2 * (S w a + S w b) < -(M w n : Int)) ∧
+    (isNegative w a = false → (M w n : Int) ≤ 2 * (S w a + S w b)) := by
+  have h1 := isNegative_iff' hw hn ha
+  have h2 := isNegative_false_iff hw hn ha
+  have hra := S_repS hw hn ha; have hrb := S_repS hw hn hb
+  unfold repS at *
+  exact ⟨fun h => by have := h1.1 h; omega, fun h => by have := h2.1 h; omega⟩
+
+theorem sub_overflow_side {w n : Nat} {a b : List Nat} (hw : 1 ≤ w) (hn : 1 ≤ n)
+    (ha : WF w n a) (hb : WF w n b) (hov : ¬ repS (M w n) (S w a - S w b)) :
+    (isNegative w a = true → 2 * (S w a - S w b) < -(M w n : Int)) ∧
+    (isNegative w a = false → (M w n : Int) ≤ 2 * (S w a - S w b)) := by
+  have h1 := isNegative_iff' hw hn ha
+  have h2 := isNegative_false_iff hw hn ha
+  have hra := S_repS hw hn ha; have hrb := S_repS hw hn hb
+  unfold repS at *
+  exact ⟨fun h => by have := h1.1 h; omega, fun h => by have := h2.1 h; omega⟩
+end II
 end Bnum
